@@ -60,11 +60,17 @@ Pres(d) == {[kind |-> "none"]} \cup
 \* network = first linear layer, activation, optional second block, optional head
 Nets ==
     LET First == {<<1, l>> : l \in Lin12} \cup {<<2, l>> : l \in Lin22}
-    IN UNION {UNION {UNION {{[dim |-> fl[1], layers |-> <<fl[2]>> \o av \o second \o hd, pre |-> pr] :
-                                hd \in Heads(IF second = <<>> THEN 2 ELSE Len(second[1].a.m)), pr \in Pres(fl[1])}
-                            : second \in {<<>>} \cup (IF N >= 2 THEN {<<l2>> \o av2 : l2 \in Lin22 \cup Lin21, av2 \in {<<>>} \cup {<<ActLayer("relu", 0)>>}} ELSE {})}
-                     : av \in UNION {ActVariants(kd, 2) : kd \in ActKinds}}
-              : fl \in First}
+        \* one hidden block: every activation kind, all heads, all preconditions
+        One == UNION {UNION {{[dim |-> fl[1], layers |-> <<fl[2]>> \o av \o hd, pre |-> pr] : hd \in Heads(2), pr \in Pres(fl[1])}
+                             : av \in UNION {ActVariants(kd, 2) : kd \in ActKinds}} : fl \in First}
+        \* two hidden blocks (N >= 2): ReLU / hard tanh first, then a second linear layer with or without a ReLU
+        Two == IF N < 2 THEN {}
+               ELSE UNION {UNION {UNION {{[dim |-> fl[1], layers |-> <<fl[2]>> \o av \o <<l2>> \o av2 \o hd, pre |-> pr] :
+                                             hd \in Heads(Len(l2.a.m)), pr \in {[kind |-> "none"]} \cup {CHOOSE x \in Pres(fl[1]) : x.kind = "poly"}}
+                                         : l2 \in {CHOOSE x \in Lin22 : TRUE} \cup Lin21 \cup Lin23, av2 \in {<<>>, <<ActLayer("relu", 0)>>}}
+                                  : av \in ActVariants("relu", 2) \cup {[j \in 1..2 |-> ActLayer("hard_tanh", j - 1)]}}
+                           : fl \in First}
+    IN One \cup Two
 
 \* ---------------------------------------------------------------- C18: builder calls
 Call(nm, args) == [call |-> nm] @@ args
